@@ -317,7 +317,7 @@ func c08(c *evid.Ctx) {
 		}
 		n.Close()
 	}
-	if c.Counter("responses checked") == 0 || c.Counter("errors checked") == 0 || c.Counter("expected silence, checked") == 0 {
-		c.Inconclusive("a reply class was never observed")
-	}
+	c.Floor("responses checked", 1)
+	c.Floor("errors checked", 1)
+	c.Floor("expected silence, checked", 1)
 }
